@@ -183,15 +183,33 @@ const deadline = 2 * time.Second
 
 // runCase runs the case under a 2 s deadline; a timeout is confirmed by re-running the case alone
 // with a longer deadline (embedded etcd or the Go runtime can stall when the machine is loaded).
+// nodeName is the plugin node every op works on. A timed-out attempt keeps running in its leaked goroutine
+// and may still write to the store (commit of a deployment / re-allocation): after a timeout all later
+// attempts and cases move to a fresh node name so that the leaked call cannot interfere with them.
+var (
+	nodeName = "n"
+	nodeGen  = 0
+)
+
+func freshNode() {
+	nodeGen++
+	nodeName = fmt.Sprintf("n%d", nodeGen)
+}
+
 func runCase(t *testing.T, k *kase) {
 	runOnce(t, k, deadline)
 	if _, ok := k.Impl["timeout"]; ok {
+		freshNode()
 		runOnce(t, k, 5*deadline)
+		if _, ok := k.Impl["timeout"]; ok {
+			freshNode()
+		}
 	}
 	// an error that is none of the plugin's own (store/etcd trouble on a loaded machine) is an
 	// environment failure, not behaviour of the code under test: retry, then mark the case
 	for try := 0; try < 3 && envFailed(k.Impl); try++ {
 		time.Sleep(200 * time.Millisecond)
+		freshNode()
 		runOnce(t, k, 5*deadline)
 	}
 	if envFailed(k.Impl) {
@@ -223,6 +241,7 @@ func genRemapWorkloads(r *hx.Rng, n *node, base int) map[string]*workload {
 
 func runOnce(t *testing.T, k *kase, deadline time.Duration) {
 	ctx := context.Background()
+	node := nodeName // fixed for this attempt (the leaked goroutine of a timed-out attempt keeps its own)
 	var res map[string]any
 	var p *cpumem.Plugin
 	if k.Op != "plans" {
@@ -244,7 +263,7 @@ func runOnce(t *testing.T, k *kase, deadline time.Duration) {
 			res = map[string]any{"plans": out}
 		case "deploy", "realloc", "capacity", "remap":
 			info := k.Node.info()
-			if _, err := p.SetNodeResourceInfo(ctx, "n", rawRes(info.Capacity), rawRes(info.Usage)); err != nil {
+			if _, err := p.SetNodeResourceInfo(ctx, node, rawRes(info.Capacity), rawRes(info.Usage)); err != nil {
 				res = map[string]any{"seterr": errClass(err)}
 				return
 			}
@@ -255,7 +274,7 @@ func runOnce(t *testing.T, k *kase, deadline time.Duration) {
 				for id, w := range k.Wls {
 					in[id] = w.raw()
 				}
-				resp, err := p.CalculateRemap(ctx, "n", in)
+				resp, err := p.CalculateRemap(ctx, node, in)
 				if err != nil {
 					res = map[string]any{"err": errClass(err)}
 					return
@@ -273,20 +292,20 @@ func runOnce(t *testing.T, k *kase, deadline time.Duration) {
 				return
 			}
 			if k.Op == "capacity" {
-				resp, err := p.GetNodesDeployCapacity(ctx, []string{"n"}, rq)
+				resp, err := p.GetNodesDeployCapacity(ctx, []string{node}, rq)
 				if err != nil {
 					res = map[string]any{"err": errClass(err)}
 					return
 				}
 				c := 0 // nodes with capacity <= 0 are left out of the map
-				if e, ok := resp.NodeDeployCapacityMap["n"]; ok && e != nil {
+				if e, ok := resp.NodeDeployCapacityMap[node]; ok && e != nil {
 					c = e.Capacity
 				}
 				res = map[string]any{"cap": c, "total": resp.Total}
 				return
 			}
 			if k.Op == "deploy" {
-				resp, err := p.CalculateDeploy(ctx, "n", k.Count, rq)
+				resp, err := p.CalculateDeploy(ctx, node, k.Count, rq)
 				if err != nil {
 					res = map[string]any{"err": errClass(err)}
 					return
@@ -310,12 +329,12 @@ func runOnce(t *testing.T, k *kase, deadline time.Duration) {
 					eps = append(eps, e)
 				}
 				commit := "ok"
-				if _, err := p.SetNodeResourceUsage(ctx, "n", nil, nil, resp.WorkloadsResource, true, true); err != nil {
+				if _, err := p.SetNodeResourceUsage(ctx, node, nil, nil, resp.WorkloadsResource, true, true); err != nil {
 					commit = errClass(err)
 				}
 				res = map[string]any{"ws": ws, "eps": eps, "commit": commit}
 			} else {
-				resp, err := p.CalculateRealloc(ctx, "n", k.Origin.raw(), rq)
+				resp, err := p.CalculateRealloc(ctx, node, k.Origin.raw(), rq)
 				if err != nil {
 					res = map[string]any{"err": errClass(err)}
 					return
@@ -337,7 +356,7 @@ func runOnce(t *testing.T, k *kase, deadline time.Duration) {
 				}
 				// commit the delta the way the cluster does (usage += delta), observing the plugin's own Validate
 				commit := "ok"
-				if _, err := p.SetNodeResourceUsage(ctx, "n", nil, nil, []plugintypes.WorkloadResource{resp.DeltaResource}, true, true); err != nil {
+				if _, err := p.SetNodeResourceUsage(ctx, node, nil, nil, []plugintypes.WorkloadResource{resp.DeltaResource}, true, true); err != nil {
 					commit = errClass(err)
 				}
 				res = map[string]any{"w": wlOut(w), "d": wlOut(d), "ep": e, "commit": commit}
